@@ -43,8 +43,22 @@ def collect(tier: str, seed: int):
             else:
                 leaf = e.make_leaf({a}, iteration.RowSequence([]), name_prefix=p)
                 names.append(("seq-leaf", p, leaf.name))
+        elif isinstance(e, sql.Engine):
+            # materialized() in the SQL engine goes through sql.Engine.materialize (its own override)
+            import sqlalchemy
+            from lsst.daf.relation import ColumnExpression
+
+            pay = sql.Payload(sqlalchemy.table("t", sqlalchemy.column("a")))
+            pay.columns_available = {a: pay.from_clause.columns["a"]}
+            base = e.make_leaf({a}, pay, name="base").with_rows_satisfying(
+                ColumnExpression.reference(a).lt(ColumnExpression.literal(5)))
+            m = base.materialized(name_prefix=p)
+            node = m
+            while not hasattr(node, "name") or type(node).__name__ != "Materialization":
+                node = node.skip_to if hasattr(node, "skip_to") else node.target
+            names.append(("seq-mat-sql", p, node.name))
         else:
-            it = engines[0]
+            it = e
             base = it.make_leaf({a}, iteration.RowSequence([{a: 1}]), name="base").with_rows_satisfying(
                 __import__("lsst.daf.relation", fromlist=["ColumnExpression"]).ColumnExpression.reference(a).lt(
                     __import__("lsst.daf.relation", fromlist=["ColumnExpression"]).ColumnExpression.literal(5)))
